@@ -787,6 +787,13 @@ def check(P: Project, R: Report) -> None:
         R.ob("R3", "the single-message validator is reached only with a value already known not to be a list", not opens, f"{router.module.rel}:{val_calls[0].lineno}",
              f"a path reaches `{ast.unparse(val_calls[0])[:60]}` without having excluded a list ({opens[:1]})", sample="R3 validate(x) only under `not isinstance(x, list)`")
 
+    # … in the order the server wrote them
+    from .c15 import worklist_order_problems
+
+    for f_ in meths.values():
+        for node_, why_ in worklist_order_problems(f_):
+            R.ob("R3", f"{f_.qual}: the members of an array body are routed in order", False, f"{f_.module.rel}:{node_.lineno}",
+                 f"{why_}: a body `[progress, progress, response]` delivers the terminal response first and the notifications that led to it afterwards")
     # every member is routed: a delivery never sits where Python evaluates it only if an earlier result allows it
     for f_, node_, why_ in conditionally_evaluated_deliveries(P, ci):
         R.ob("R3", f"{f_.qual}: every message of a body is routed, whatever came before it", False, f"{f_.module.rel}:{node_.lineno}",
